@@ -358,14 +358,35 @@ func squash(v string) string {
 func SurelyDifferent(a, b []string) bool {
 	ja := squash(strings.Join(a, ","))
 	jb := squash(strings.Join(b, ","))
-	if strings.Contains(ja, ";") || strings.Contains(jb, ";") {
-		// parameters (q-values): only judged when one side is empty
+	if strings.Contains(ja, ";q=") || strings.Contains(jb, ";q=") {
+		// weights (q-values): how a cache ranks and merges weighted members is its own
+		// business; only judged when one side is empty
 		if (ja == "") != (jb == "") {
 			return true
 		}
 		return false
 	}
 	return ja != jb
+}
+
+// OnlyRefusals reports whether every member of the (non-empty) value carries the weight 0:
+// a list that only refuses things ("identity;q=0") says something else than no field at all.
+func OnlyRefusals(a []string) bool {
+	s := squash(strings.Join(a, ","))
+	if s == "" {
+		return false
+	}
+	for _, m := range strings.Split(s, ",") {
+		i := strings.Index(m, ";q=")
+		if i < 0 {
+			return false
+		}
+		w := strings.TrimRight(strings.TrimRight(m[i+3:], "0"), ".")
+		if w != "0" && w != "" {
+			return false
+		}
+	}
+	return true
 }
 
 // SurelySame: the values are equivalent under normalisations every reading accepts:
@@ -399,4 +420,27 @@ func Components(u string) (scheme, authority, path, query string) {
 		authority = rest
 	}
 	return
+}
+
+// VariantHash is the 64-bit FNV-1a hash the cache derives a variant's store key from (names and
+// values delimited by NUL, names in sorted order). Two different value sets with the same hash
+// share one store key.
+func VariantHash(fields []string, values map[string]string) uint64 {
+	const offset, prime = 14695981039346656037, 1099511628211
+	h := uint64(offset)
+	add := func(s string) {
+		for i := 0; i < len(s); i++ {
+			h ^= uint64(s[i])
+			h *= prime
+		}
+		h ^= 0
+		h *= prime
+	}
+	names := append([]string(nil), fields...)
+	sort.Strings(names)
+	for _, n := range names {
+		add(n)
+		add(values[n])
+	}
+	return h
 }
